@@ -198,14 +198,45 @@ def bounded(chk):
     chk.bounded_result("write_zip_read_roundtrip", n2, n2, False,
                        "FsOutput.write_pages/close -> zip -> extractall -> NuWiki: every revision by revid, every title (4 spellings) -> newest revision; texts with near-separators, CR/LF, empty, non-BMP",
                        [f2] if f2 else [])
+    n4, f4 = redirect_table_case()
+    chk.bounded_result("redirect_table_read_back_as_written", n4, n4, True,
+                       "9 redirect tables through FsOutput.write_redirects -> NuWiki: titles such as 'type', 'title', 'items' as sources", [f4] if f4 else [])
     n3, f3 = history_and_images_case()
     chk.bounded_result("lookups_in_sequence_and_image_files", n3, n3, True,
-                       "one archive through FsOutput -> zip -> extractall -> NuWiki: colon titles with a non-namespace prefix looked up under different default namespaces one after the other (both orders); image files whose names hold dots, '~' and non-ASCII letters found again by title",
+                       "one archive through FsOutput -> zip -> extractall -> NuWiki: colon titles with a non-namespace prefix looked up under different default namespaces one after the other (both orders); image files whose names hold dots, '~', non-ASCII letters or start with a namespace word (next to the same name without it) found again by title, each with its own bytes",
                        [f3] if f3 else [])
     bad, w, cls = replay_redirect(None, None)
     chk.bounded_result("redirect_with_stored_stub", 2, 1, True,
                        "archive holding the redirecting stub, the target and the redirects.json entry (what the fetcher writes): the stub's title, in two spellings, leads to the target's text",
                        [{"detail": str(w), "witness": w, "class": cls}] if bad else [])
+
+
+def redirect_table_case():
+    """the redirect table is a table of titles: whatever titles it holds, it is read back as written"""
+    import os, shutil, tempfile
+    from mwlib.core import nuwiki
+    from mwlib.network import siteinfo
+    from mwlib.network.fetch import FsOutput
+    n = 0
+    for table in ({"type": "source", "color": "colour"}, {"Type": "Collection"}, {"a": "b", "type": "article"}, {"type": "custom"}, {"type": "Chapter", "items": "x"},
+                  {"Type": "Source"}, {"title": "T", "type": "license"}, {}, {"x": "y"}):
+        n += 1
+        base = tempfile.mkdtemp(prefix="verif_c14_")
+        try:
+            path = os.path.join(base, "nuwiki")
+            out = FsOutput(path)
+            out.dump_json(siteinfo=siteinfo.get_siteinfo("en"))
+            out.write_redirects(dict(table))
+            out.close()
+            try:
+                got = nuwiki.NuWiki(path).redirects
+            except Exception as e:  # noqa: BLE001
+                return n, {"detail": f"redirect table {table!r}: reading the archive raised {type(e).__name__}: {e}", "witness": {"redirects": table}, "class": "redirect-table"}
+            if not isinstance(got, dict) or got != table:
+                return n, {"detail": f"redirect table {table!r} is read back as {type(got).__name__} {got!r}", "witness": {"redirects": table}, "class": "redirect-table"}
+        finally:
+            shutil.rmtree(base, ignore_errors=True)
+    return n, None
 
 
 def history_and_images_case():
@@ -214,7 +245,10 @@ def history_and_images_case():
     from mwlib.network import siteinfo
     from mwlib.network.fetch import FsOutput
     pages = [("Star Trek: Voyager", 0, 1, "voyager text"), ("Template:Star Trek: Navbox", 10, 2, "navbox text"), ("Template:Foo: Bar", 10, 3, "foo bar text")]
-    images = ["File:And so on....png", "File:A b.png", "File:\u00c4~x.v1.2.png", "File:Star Trek: Logo.png"]
+    images = ["File:And so on....png", "File:A b.png", "File:\u00c4~x.v1.2.png", "File:Star Trek: Logo.png",
+              # file names that themselves start with a namespace word, next to the same name without it
+              "File:User:Example signature.png", "File:Image:Old upload.jpg", "File:Old upload.jpg", "File:Wikipedia:Meetup 2.7~beta.jpg",
+              "File:Template:Box.svg", "File:Box.svg", "File:File:Twice.png"]
     n = 0
     for order in (0, 1):
         base = tempfile.mkdtemp(prefix="verif_c14_")
